@@ -102,6 +102,7 @@ class CallMixin:
     # ------------------------------------------------------------------ allocation
     def _alloc(self, size, zero, node, what):
         if not self.branch_alloc():
+            self.st.ghost['alloc_failed'] = z3.BoolVal(True)
             return NULL
         self.assume(z3.ULE(size, bv(PTRDIFF_MAX, 64)))
         r = Region('%s@%s' % (what, self.tu.node_file_line(node)[1]), 'raw', length=size, heap=True)
@@ -361,6 +362,11 @@ class CallMixin:
         tr = Translator(ctx, self.reg.defs)
         for ln, ldef in c.logical.items():
             names[ln] = tr.expr(ldef)
+        if c.allocates:
+            # ghost: "an allocation failed inside this activation of the callee"
+            af = self.fresh('alloc_failed', z3.BoolSort())
+            names['alloc_failed'] = af
+            self.st.ghost['alloc_failed'] = z3.Or(self.st.ghost.get('alloc_failed', z3.BoolVal(False)), af)
         # 1. shape / validity of pointer arguments
         extents = {}
         for path, spec in list(c.regions.items()):
@@ -385,12 +391,16 @@ class CallMixin:
             rct = self.tu.tp_parse_nested(c.ret)
         if c.alloc_result is not None:
             kind = parse_region_spec(c.alloc_result)
+            if not c.allocates:
+                raise Unsupported('alloc_result needs allocates=True')
             if self.branch_alloc():
+                self.assume(z3.Not(names['alloc_failed']))
                 ln = to_index(tr.as_tv(tr.expr(kind[2])))
                 r = self.new_array_region('%s.result@%s' % (c.name, self.site(e)), kind[1], ln, heap=True)
                 self.st.allocated.append(r)
                 result = Ptr(r)
             else:
+                self.assume(names['alloc_failed'])
                 result = NULL
         elif rct is not None and rct.kind == 'int':
             result = self.fresh_bv(c.name + '.ret', rct.bits)
